@@ -100,7 +100,7 @@ theorem gen_newton (sqrt : K → K) (sh : Shape K) (P1 S : V3 K) (sj : K) :
     let Pj := Generated.C19.newtonPoint abs P1 S sj 0 ⟨0, 0, 0⟩
     let sr := sagNormal sqrt sh Pj.x Pj.y
     (Pj, sr.2, Generated.C19.newtonNext abs P1 S sj sr.1 sr.2) = newtonStep sqrt sh P1 S sj := by
-  simp only [Generated.C19.newtonPoint, Generated.C19.newtonNext, newtonStep]
+  simp only [Generated.C19.newtonPoint, Generated.C19.newtonNext, Generated.C19.newtonF, Generated.C19.newtonFp, newtonStep]
 
 /-- structural facts read off the AST of the current source -/
 theorem gen_structure :
@@ -114,7 +114,7 @@ theorem reflect_norm (S r : V3 K) (h : r ≠ ⟨0, 0, 0⟩) :
     V3.dot (gReflect S r) (gReflect S r) = V3.dot S S := by
   have hp := normSq_pos h
   rcases S with ⟨k, l, m⟩; rcases r with ⟨a, b, c⟩
-  simp only [Generated.C19.reflect, V3.dot, V3.sub, V3.smul] at *
+  simp only [Generated.C19.reflect, Model.C19.reflect, V3.dot, V3.sub, V3.smul] at *
   have h2 : a ^ 2 + b ^ 2 + c ^ 2 ≠ 0 := by nlinarith
   have h3 : a * a + b * b + c * c ≠ 0 := ne_of_gt hp
   field_simp
@@ -126,7 +126,7 @@ theorem reflect_mirror (S r : V3 K) (h : r ≠ ⟨0, 0, 0⟩) :
     V3.dot (gReflect S r) r = -V3.dot S r ∧ V3.cross (V3.sub (gReflect S r) S) r = ⟨0, 0, 0⟩ := by
   have hp := normSq_pos h
   rcases S with ⟨k, l, m⟩; rcases r with ⟨a, b, c⟩
-  simp only [Generated.C19.reflect, V3.dot, V3.sub, V3.smul, V3.cross] at *
+  simp only [Generated.C19.reflect, Model.C19.reflect, V3.dot, V3.sub, V3.smul, V3.cross] at *
   have h2 : a ^ 2 + b ^ 2 + c ^ 2 ≠ 0 := by nlinarith
   have h3 : a * a + b * b + c * c ≠ 0 := ne_of_gt hp
   refine ⟨?_, ?_⟩
@@ -209,7 +209,7 @@ theorem rigid_roundtrip (P X S : V3 K) (R : M3 K) (hR : M3.mul (M3.transpose R) 
   simp only [M3.mul, M3.transpose, M3.one, M3.col0, M3.col1, M3.col2, V3.dot, M3.mk.injEq, V3.mk.injEq] at hR
   obtain ⟨⟨h00, h01, h02⟩, ⟨h10, h11, h12⟩, ⟨h20, h21, h22⟩⟩ := hR
   simp only [Generated.C19.toGlobalP, Generated.C19.toLocalP, Generated.C19.toGlobalS, Generated.C19.toLocalS,
-    M3.mulVec, M3.transpose, V3.dot, V3.sub, V3.add]
+    toLocalP, toLocalS, toGlobalP, toGlobalS, M3.mulVec, M3.transpose, V3.dot, V3.sub, V3.add]
   constructor
   · refine V3.ext' ?_ ?_ ?_ <;> simp only []
     · linear_combination (x - p) * h00 + (y - q) * h01 + (z - r) * h02
@@ -226,7 +226,7 @@ theorem rigid_roundtrip_noR (P X S : V3 K) :
     Generated.C19.toGlobalSNoR P X (Generated.C19.toLocalSNoR P X S) = S := by
   rcases X with ⟨x, y, z⟩; rcases P with ⟨p, q, r⟩
   simp only [Generated.C19.toGlobalPNoR, Generated.C19.toLocalPNoR, Generated.C19.toGlobalSNoR,
-    Generated.C19.toLocalSNoR, V3.sub, V3.add, sub_add_cancel, and_self]
+    Generated.C19.toLocalSNoR, toLocalP, toLocalS, toGlobalP, toGlobalS, V3.sub, V3.add, sub_add_cancel, and_self]
 
 /-- `RᵀR = I ⇒` entering the frame preserves scalar products (hence lengths, angles, direction-cosine
 normalisation) and distances between points -/
@@ -240,7 +240,7 @@ theorem rigid_isometry (P X Y S T : V3 K) (R : M3 K) (hR : M3.mul (M3.transpose 
   rcases P with ⟨p, q, r⟩
   simp only [M3.mul, M3.transpose, M3.one, M3.col0, M3.col1, M3.col2, V3.dot, M3.mk.injEq, V3.mk.injEq] at hR
   obtain ⟨⟨h00, h01, h02⟩, ⟨h10, h11, h12⟩, ⟨h20, h21, h22⟩⟩ := hR
-  simp only [Generated.C19.toLocalP, Generated.C19.toLocalS, M3.mulVec, V3.dot, V3.sub]
+  simp only [Generated.C19.toLocalP, Generated.C19.toLocalS, toLocalP, toLocalS, M3.mulVec, V3.dot, V3.sub]
   constructor
   · linear_combination (k * k') * h00 + (k * l') * h01 + (k * m') * h02 + (l * k') * h10 + (l * l') * h11
       + (l * m') * h12 + (m * k') * h20 + (m * l') * h21 + (m * m') * h22
